@@ -72,7 +72,7 @@ func (c08) Generate(r *core.Rand, tier string, idx uint64) *core.Case {
 		op.Actor = cacheActor
 		ops = append(ops, op)
 	}
-	refs := []string{mainRef, mainRef, relRef, openRef}
+	refs := []string{mainRef, mainRef, relRef, openRef, main2Ref}
 	modes := []string{"full", "latest", "fromCheckpoint", "full"}
 	for i, op := range g.b.ops {
 		ops = append(ops, op)
@@ -107,7 +107,7 @@ func (c08) Generate(r *core.Rand, tier string, idx uint64) *core.Case {
 		}
 	}
 	// final round: other refs first, same ref twice, every mode
-	for _, ref := range []string{openRef, relRef, mainRef, mainRef} {
+	for _, ref := range []string{main2Ref, openRef, relRef, mainRef, mainRef} {
 		for _, m := range []string{"latest", "full", "fromCheckpoint"} {
 			add(world.Op{Kind: "verify", Ref: ref, Mode: m})
 		}
